@@ -73,6 +73,7 @@ const (
 	fSlowBody fault = "slowbody" // header, pause, body
 	fTrunc    fault = "trunc"    // body cut short, then the broker closes
 	fClose    fault = "close"    // the broker closes instead of answering
+	fTail     fault = "tail"     // the frame carries, after a complete body, bytes that spell a frame for the next id
 	fStall    fault = "stall"    // the broker stalls in the MIDDLE of the body (after k bytes) past the caller's deadline, then goes on
 )
 
@@ -109,6 +110,7 @@ type muxBroker struct {
 	batch  int
 	order  string
 	faults map[int]fault
+	avTail bool // the ApiVersions answer carries, after the list of versions, bytes that spell a frame for the next id
 	gap    time.Duration
 	pause  time.Duration
 	r      *rand.Rand
@@ -382,6 +384,9 @@ func (b *muxBroker) sendLoop() {
 			if q.key == 18 && f != fDrop && f != fClose {
 				f = fNone
 			}
+			if f == fTail && q.key == 1 {
+				f = fNone // Fetch: the tail forms of the message set cover it
+			}
 			switch f {
 			case fDrop:
 				continue
@@ -430,6 +435,12 @@ func (b *muxBroker) sendLoop() {
 					return false
 				}
 			default:
+				if (q.key == 18 && b.avTail) || f == fTail {
+					// payload bytes after the version list, inside the frame: a client that stops reading where the list
+					// ends must not take them for the next response (/repo 2b8f9f7: now an error that closes the conn)
+					emb := embeddedFrame(q.id + 1)
+					frame = append(append(be32(uint32(len(frame)-4+len(emb))), frame[4:]...), emb...)
+				}
 				if !b.write(frame) {
 					return false
 				}
@@ -489,6 +500,13 @@ func errRes(err error) string {
 // connScenario runs one Conn scenario.  stallAt >= 0 selects the stall family: one caller, tagged ReadOffset
 // calls only, and the broker stalls in the middle of the body of the SECOND response after exactly stallAt body
 // bytes, past the caller's deadline, then sends the rest and answers what follows.
+//
+// tailFam >= 0 selects the tail family: two callers with one call each, the broker waits for both requests and
+// answers them in order, and the FIRST answer carries, after its complete body and inside its frame, bytes that spell
+// a frame for the second caller's correlation id with a foreign payload.  The first caller's reader must fail (bytes
+// left) and the second caller must not be served the leftover (C06-D30).
+var tailFam = -1
+
 func connScenario(r *rand.Rand, thorough bool, single bool, stallAt int) {
 	cl, sv := net.Pipe()
 	conn := kafka.NewConnWith(cl, kafka.ConnConfig{ClientID: "c06", Topic: "t", Partition: 0})
@@ -501,6 +519,9 @@ func connScenario(r *rand.Rand, thorough bool, single bool, stallAt int) {
 	if stallAt >= 0 {
 		nG, perG = 1, 4
 	}
+	if tailFam >= 0 {
+		nG, perG = 2, 1
+	}
 	b := &muxBroker{conn: sv, pending: make(chan muxReq, 64), done: make(chan struct{}), r: rand.New(rand.NewSource(r.Int63())),
 		batch: 1 + r.Intn(nG+1), order: []string{"fifo", "reverse", "random"}[r.Intn(3)], faults: map[int]fault{},
 		gap: time.Duration(r.Intn(3)) * 200 * time.Microsecond, pause: time.Duration(5+r.Intn(60)) * time.Millisecond}
@@ -509,18 +530,25 @@ func connScenario(r *rand.Rand, thorough bool, single bool, stallAt int) {
 	if r.Intn(3) > 0 {
 		nf = 1 + r.Intn(2)
 	}
-	kinds := []fault{fDrop, fKafkaErr, fSlowBody, fTrunc, fClose, fKafkaErr, fSlowBody}
+	kinds := []fault{fDrop, fKafkaErr, fSlowBody, fTrunc, fClose, fKafkaErr, fSlowBody, fTail}
 	if nG == 1 {
 		// frames nobody (any longer) waits for: only with a single caller.  With two or more waiters such a
 		// frame at the head of the buffer makes every waiter spin in waitResponse forever (each sees
 		// concurrency() > 1 and yields; Peek is served from the buffer, so no deadline ever fires) — a
 		// liveness problem outside C06, see docs/notes/C06.md.
-		kinds = []fault{fBogus, fDup, fStall, fStall, fStall, fKafkaErr, fDrop}
+		kinds = []fault{fBogus, fDup, fStall, fStall, fStall, fKafkaErr, fDrop, fTail}
 	}
 	for i := 0; i < nf; i++ {
 		b.faults[r.Intn(total+1)] = kinds[r.Intn(len(kinds))]
 	}
 	b.gzPct = 50
+	b.avTail = stallAt < 0 && r.Intn(10) == 0
+	if tailFam >= 0 {
+		b.batch, b.order, b.avTail, b.faults = 2, "fifo", tailFam >= 4, map[int]fault{}
+		if tailFam < 4 {
+			b.faults[0] = fTail
+		}
+	}
 	if stallAt >= 0 {
 		b.faults = map[int]fault{1: fStall}
 		b.batch = 1
@@ -547,6 +575,9 @@ func connScenario(r *rand.Rand, thorough bool, single bool, stallAt int) {
 	})
 	kafka.VerifStart()
 	deadline := time.Duration(40+r.Intn(80)) * time.Millisecond
+	if tailFam >= 0 {
+		deadline = 400 * time.Millisecond
+	}
 	b.stallFor = deadline + 250*time.Millisecond // a wide margin: the rest of the body must not arrive before the caller has given up, even on a loaded machine
 	var wg sync.WaitGroup
 	results := make([]callRes, 0, total)
@@ -558,6 +589,12 @@ func connScenario(r *rand.Rand, thorough bool, single bool, stallAt int) {
 			ops[i] = []string{"offset", "parts", "batch", "offset", "parts", "produce"}[r.Intn(6)]
 			if stallAt >= 0 {
 				ops[i] = "offset"
+			}
+			if tailFam >= 0 {
+				// 0..3: the tail follows the body of a ListOffsets / Metadata answer; 4..: it follows the version list of the
+				// ApiVersions answer that the produce call asks for first, while the other caller is already waiting
+				ops[i] = [][]string{{"offset", "offset"}, {"parts", "parts"}, {"offset", "parts"}, {"parts", "offset"},
+					{"produce", "offset"}, {"produce", "parts"}, {"offset", "produce"}, {"batch", "offset"}}[tailFam%8][g]
 			}
 		}
 		hold := time.Duration(r.Intn(3)) * time.Millisecond
@@ -633,7 +670,7 @@ func connScenario(r *rand.Rand, thorough bool, single bool, stallAt int) {
 			}
 		}(g)
 	}
-	if nG > 1 && stallAt < 0 && r.Intn(6) == 0 {
+	if nG > 1 && stallAt < 0 && tailFam < 0 && r.Intn(6) == 0 {
 		// the application closes the Conn while calls are in flight
 		after := time.Duration(r.Intn(15)) * time.Millisecond
 		wg.Add(1)
@@ -754,6 +791,7 @@ func main() {
 	if len(os.Args) > 1 {
 		n, _ = strconv.Atoi(os.Args[1])
 	}
+	n += 8
 	bytesCases(r, thorough)
 	consumedCases(r, thorough)
 	out.Flush()
@@ -774,11 +812,15 @@ func main() {
 		}()
 		// the first fifth of the scenarios are single-caller ones (duplicates / foreign frames allowed)
 		// scenarios 0..33: the stall family, one per cut position k of the 33-byte ListOffsets body (and one beyond)
-		stallAt := -1
-		if i < 34 {
-			stallAt = i
+		// scenarios 0..7 of the run: the tail family; then the numbering above
+		stallAt, j := -1, i-8
+		tailFam = -1
+		if i < 8 {
+			tailFam = i
+		} else if j < 34 {
+			stallAt = j
 		}
-		connScenario(r, thorough, i < 34+n/5, stallAt)
+		connScenario(r, thorough, j >= 0 && j < 34+n/5, stallAt)
 		out.Flush()
 		close(fin)
 	}
